@@ -391,11 +391,11 @@ let snapshot (s : state) : string =
   let runs = (match s.run with RNot -> "none" | RRet e -> if e then "err" else "ok" | _ -> "running") in
   let nret = List.length (List.filter (fun p -> p = SRet) s.stops) in
   let conn_s i (c : conn) =
-    Printf.sprintf "c%d:id=%d,started=[%s],ended=[%s],closed=%s,onclose=%d" i (int_of_nat c.cid)
+    Printf.sprintf "c%d:id=%d,started=[%s],ended=[%s],closed=%s,onclose=%d,rx=%d" i (int_of_nat c.cid)
       (String.concat ";" (List.map (fun (r, k) -> string_of_int r ^ kind_char k)
                             (List.sort compare (List.map (fun (r, k) -> (int_of_nat r, k)) c.started))))
       (String.concat ";" (List.map (fun r -> string_of_int (int_of_nat r)) (List.sort compare c.ended)))
-      (b01 c.sock_closed) (int_of_nat c.onclose) in
+      (b01 c.sock_closed) (int_of_nat c.onclose) (int_of_nat c.sent) in
   Printf.sprintf "alive=%s ready=%s run=%s stops=%d/%d port=%s %s" (b01 s.alive) (b01 s.ready) runs nret
     (List.length s.stops) (b01 s.port_bound) (String.concat " " (List.mapi conn_s s.conns))
 let do_life t =
